@@ -29,7 +29,7 @@ RULE = ('cases: (a) exhaustive: n in 1..N systems x priority pattern (distinct /
         '>=1 system ordered after the completer was due in the completing step; distinct by (priorities, position, timestep, tail).')
 ASSUMPTIONS = ['the clock value right after the completing step is not prescribed (the unit test counts that step); it must be frozen afterwards',
                'add_system/remove_system after completion may change the registry; only advance requests must change nothing']
-FLOORS = {'quick': {'search_driver_runs_with_a_collector': 13, 'completions_in_the_last_timestep_of_the_completers_window': 175, 'completing_calls_that_also_change_the_system_set': 183, 'completions_by_a_system_registered_during_a_timestep': 100, 'runs_with_systems_whose_execute_is_inherited_from_a_mixin_or_bound_per_instance': 275, 'advance_requests_from_inside_the_completing_system': 212, 'cases_in_mode_debuglog': 196, 'cases_in_mode_optimised': 196, 'failing_system_exception': 205, 'failing_system_interrupt': 83, 'unrelated_model_steps_between_requests': 5332, 'system_faults_caught': 116, 'completer_raised_after_complete': 39, 'completions_after_system_fault': 83, 'models_with_quiet_logger': 308, 'completions_mid_step': 910, 'completions_outside': 75, 'later_system_due_in_completing_step': 500,
+FLOORS = {'quick': {'batch_driver_runs_with_a_sparse_collector': 13, 'search_driver_runs_with_a_collector': 13, 'completions_in_the_last_timestep_of_the_completers_window': 175, 'completing_calls_that_also_change_the_system_set': 183, 'completions_by_a_system_registered_during_a_timestep': 100, 'runs_with_systems_whose_execute_is_inherited_from_a_mixin_or_bound_per_instance': 275, 'advance_requests_from_inside_the_completing_system': 212, 'cases_in_mode_debuglog': 196, 'cases_in_mode_optimised': 196, 'failing_system_exception': 205, 'failing_system_interrupt': 83, 'unrelated_model_steps_between_requests': 5332, 'system_faults_caught': 116, 'completer_raised_after_complete': 39, 'completions_after_system_fault': 83, 'models_with_quiet_logger': 308, 'completions_mid_step': 910, 'completions_outside': 75, 'later_system_due_in_completing_step': 500,
                     'tail_execute': 2000, 'tail_execute_n': 2000, 'tail_execute_systems': 2000, 'tail_throw': 2000,
                     'model_complete_errors': 2000, 'tail_add': 1000, 'tail_remove': 500, 'batch_driver_runs': 20,
                     'pos_first': 100, 'pos_middle': 100, 'pos_last': 100, 'multi_step_past_completion': 200, 'long_tails': 30, 'long_requests_after_completion': 1000,
@@ -323,6 +323,13 @@ def case_batch(ctx, case):
               records=rec)
         for r in rec:
             check(r['ran'] == ['b0', 'b1', 'completer', 'a0', 'a1'], 'wrong systems in a step before completion', record=r)
+        # ... and with a collector that samples every 2nd / 3rd timestep only: the records returned for the run are those of its own grid -
+        # nothing is sampled once more when the run is over (whether it ended by completion or at the step limit)
+        fq = rng.choice([2, 3])
+        rec_f = batching._run_model_for_batch(bm.CompletingModel, {'tc': tc, 'n_before': 2, 'n_after': 2, 'trace_freq': fq}, collectors='trace', **kw)
+        ctx.count('batch_driver_runs_with_a_sparse_collector')
+        check([r['t'] for r in rec_f] == [t for t in exp_steps if t % fq == 0], f'_run_model_for_batch tc={tc} max_timesteps={limit}: a collector with '
+              f'frequency {fq} returned records of steps {[r["t"] for r in rec_f]}, expected {[t for t in exp_steps if t % fq == 0]}', records=rec_f)
         res = batching._run_model_for_search(bm.CompletingModel, bm.score_trace, 1, {'tc': tc, 'n_before': 2, 'n_after': 2}, **kw)
         info = res['records'][0]
         check(all(t <= min(tc, lim - 1) for t, _ in info['log']), 'a system ran past completion / the step limit', info=info)
